@@ -37,7 +37,7 @@ ASSUMPTIONS = [
 ]
 CONFIG = {
     'shards': {'quick': 16, 'thorough': 16},
-    'min_nontrivial': {'quick': 150, 'thorough': 2500},
+    'min_nontrivial': {'quick': 500, 'thorough': 4000},
     'required_counters': ['rejections_decided'],
 }
 ANCHORS = [
@@ -205,6 +205,36 @@ def check_case(ctx, case):
                 k, o['exc']), c, {'msg': o['msg'], 'text': text[:1500]})
             return
         loaded.append((k, o['ok'], weight, text))
+    # one more presentation: the groups split over two files, each with its
+    # OWN default-unit block (the top file includes the second one)
+    names = list(groups)
+    if len(names) >= 2:
+        half = len(names) // 2
+        g1 = {n: groups[n] for n in names[:half]}
+        g2 = {n: groups[n] for n in names[half:]}
+        b1, p1, w1 = presentation(rng, 'default', g1)
+        b2, p2, w2 = presentation(rng, 'default', g2)
+        tries = 0
+        while b2 == b1 and tries < 5:
+            b2, p2, w2 = presentation(rng, 'default', g2)
+            tries += 1
+        t1 = libfiles.render_library(g1, units=b1, pres=p1,
+                                     include=['part2.yaml'])
+        t2 = libfiles.render_library(g2, units=b2, pres=p2)
+        with libfiles.TempTree() as tree:
+            tree.write('part2.yaml', t2)
+            pth = libfiles.write_library(tree, 'library.yaml', t1)
+            o = observe(libs.fresh, pth)
+        ctx.evals()
+        if 'exc' in o:
+            ctx.violation('two files with different default-unit blocks '
+                          'failed to load (%s)' % o['exc'], case,
+                          {'msg': o['msg'], 'top': t1[:600],
+                           'included': t2[:600]})
+            return
+        loaded.append(('two files, own unit blocks', o['ok'], max(w1, w2),
+                       t1 + '--- part2.yaml ---\n' + t2))
+        ctx.count('two_file_presentations')
     ok = True
     for name, g in groups.items():
         pr = random.Random('c12p:%s:%s' % (case['key'], name))
@@ -342,7 +372,7 @@ def check_reject(ctx, idx):
 
 
 def run_shard(ctx):
-    n = 200 if ctx.tier == 'quick' else 3000
+    n = 700 if ctx.tier == 'quick' else 6000
     for i in range(n):
         if ctx.mine(i):
             check_case(ctx, {'key': 'K%d_%d' % (ctx.seed, i)})
